@@ -195,6 +195,12 @@ func mustOnAllPaths(p *Program, fn *ssa.Function, hit func(ssa.Instruction) bool
 	if fn == nil || len(fn.Blocks) == 0 {
 		return false, "(no body)"
 	}
+	return mustFromBlock(p, fn.Blocks[0], hit, successOnly, depth)
+}
+
+// mustFromBlock: like mustOnAllPaths, for the paths that start at block start.
+func mustFromBlock(p *Program, start *ssa.BasicBlock, hit func(ssa.Instruction) bool, successOnly bool, depth int) (bool, string) {
+	fn := start.Parent()
 	hitOrCall := func(in ssa.Instruction) bool {
 		if hit(in) {
 			return true
@@ -209,7 +215,13 @@ func mustOnAllPaths(p *Program, fn *ssa.Function, hit func(ssa.Instruction) bool
 			if _, isDefer := in.(*ssa.Defer); isDefer {
 				return false
 			}
-			if f := staticCallee(ci); f != nil && f.Pkg != nil && strings.HasPrefix(f.Pkg.Pkg.Path(), modPath) && f != fn {
+			f := staticCallee(ci)
+			if f == nil {
+				if mc, isMC := ci.Common().Value.(*ssa.MakeClosure); isMC {
+					f, _ = mc.Fn.(*ssa.Function)
+				}
+			}
+			if f != nil && f.Pkg != nil && strings.HasPrefix(f.Pkg.Pkg.Path(), modPath) && f != fn {
 				ok, _ := mustOnAllPaths(p, f, hit, false, depth-1)
 				return ok
 			}
@@ -250,7 +262,7 @@ func mustOnAllPaths(p *Program, fn *ssa.Function, hit func(ssa.Instruction) bool
 			walk(s)
 		}
 	}
-	walk(fn.Blocks[0])
+	walk(start)
 	return bad == "", bad
 }
 
@@ -266,9 +278,9 @@ func isGetCall(v ssa.Value) bool {
 
 func ruleBuffersRefetched(c *Check, p *Program, rule string, owners ...string) {
 	for _, owner := range owners {
-		initFn := p.Func("", owner+".init")
+		initFn, startBlk := frameStart(p, owner)
 		if initFn == nil {
-			c.Unknown(rule, owner+".init#block-buffers-refetched", "", "block-sized buffers are re-fetched at frame start", "function "+owner+".init not found")
+			c.Unknown(rule, owner+".init#block-buffers-refetched", "", "block-sized buffers are re-fetched at frame start", "neither "+owner+".init nor a method of "+owner+" that starts a frame (Frame.InitW / Frame.ParseHeaders) was found")
 			continue
 		}
 		// fields of owner assigned from Get anywhere in the root package
@@ -300,7 +312,7 @@ func ruleBuffersRefetched(c *Check, p *Program, rule string, owners ...string) {
 				st, ok := in.(*ssa.Store)
 				return ok && lastField(st.Addr) == f && isGetCall(st.Val)
 			}
-			_, bad := mustOnAllPaths(p, initFn, isStore, true, 2)
+			_, bad := mustFromBlock(p, startBlk, isStore, true, 2)
 			c.Cond(bad == "", rule, owner+".init#refetches:"+f, p.Pos(initFn.Pos()), "every success path of "+owner+".init assigns "+f+" a buffer obtained from the current frame's BlockSizeIndex.Get (the buffer length is what Write/Read use as the block size)", "store of a Get() result on every success path", "the return at "+bad+" is reachable without assigning "+f+" from BlockSizeIndex.Get: a buffer sized for an earlier frame survives Reset and Apply(BlockSizeOption)")
 		}
 	}
@@ -376,7 +388,7 @@ func ownerField(v ssa.Value, owner string) string {
 
 func ruleStreamFieldsRearmed(c *Check, p *Program, rule string) {
 	for _, sp := range rearmSpecs {
-		initFn := p.Func("", sp.owner+".init")
+		initFn, startBlk := frameStart(p, sp.owner)
 		resetFn := p.Func("", sp.owner+".Reset")
 		if initFn == nil || resetFn == nil {
 			c.Unknown(rule, sp.owner+"#stream-fields-rearmed", "", "per-stream fields are re-initialised", "init or Reset of "+sp.owner+" not found")
@@ -420,6 +432,9 @@ func ruleStreamFieldsRearmed(c *Check, p *Program, rule string) {
 				return false
 			}
 			allPaths := func(fn *ssa.Function, successOnly bool) (bool, string) {
+				if fn == initFn {
+					return mustFromBlock(p, startBlk, touches, successOnly, 2)
+				}
 				return mustOnAllPaths(p, fn, touches, successOnly, 2)
 			}
 			okI, badI := allPaths(initFn, true)
@@ -457,7 +472,11 @@ func ruleXXHThreshold(c *Check, p *Program, rule string) {
 			return false
 		}
 		found := false
-		for _, b := range fn.Blocks {
+		var blocks []*ssa.BasicBlock
+		for _, g := range deepFuncs(fn, 2) {
+			blocks = append(blocks, g.Blocks...)
+		}
+		for _, b := range blocks {
 			ifi, ok := b.Instrs[len(b.Instrs)-1].(*ssa.If)
 			if !ok {
 				continue
@@ -486,7 +505,7 @@ func ruleXXHThreshold(c *Check, p *Program, rule string) {
 					isLen = true
 				}
 			}
-			if loadField(cmp.X) == "XXHZero.totalLen" {
+			if loadField(cmp.X) == "XXHZero.totalLen" || (widthOf(cmp.X.Type()) == 64 && derivesFromFieldWide(cmp.X, "XXHZero.totalLen")) {
 				isLen = true
 			}
 			found = true
@@ -636,6 +655,12 @@ var hashResetters = map[string]string{
 
 func ruleContentHashDiscipline(c *Check, p *Program, rule string) {
 	nW, nR := 0, 0
+	initRFamily := map[*ssa.Function]bool{}
+	if ir := p.Func("internal/lz4stream", "Blocks.initR"); ir != nil {
+		for _, f := range familyFns(ir)[1:] {
+			initRFamily[f] = true
+		}
+	}
 	for _, fn := range moduleFuncs(p, pkgStream, pkgRoot) {
 		for _, f := range withAnon(fn) {
 			for _, ci := range callsIn(f) {
@@ -653,8 +678,9 @@ func ruleContentHashDiscipline(c *Check, p *Program, rule string) {
 				if isW {
 					nW++
 					_, ok := hashFeeders[name]
-					if !ok && strings.HasPrefix(name, "Blocks.initR$") {
-						// the collector is the closure that receives from the ordered queue (a range over a channel of channels)
+					if !ok && initRFamily[f] {
+						// the collector is the goroutine of the read pipeline that receives from the ordered
+						// queue (a range over a channel of channels)
 						ok = rangesOverChanOfChan(f)
 					}
 					c.Cond(ok, rule, "checksum.Write-in:"+name, p.InstrPos(ci), "the content hash is fed only by code that runs in stream order (FrameDataBlock.Write, sequential Uncompress, the collector of Blocks.initR)", "listed feeder", name+" feeds the frame's running hash: it runs in a per-block worker or outside the ordered path, so blocks may be hashed out of order or concurrently")
@@ -705,7 +731,15 @@ func ruleWindowNumeric(c *Check, p *Program, retainRule, boundRule string) {
 		return
 	}
 	var consts []Q
-	allInstrs(fn, func(in ssa.Instruction) {
+	var scan []*ssa.Function
+	scan = append(scan, fn)
+	for _, g := range calleesOf(fn) {
+		if g.Pkg == fn.Pkg {
+			scan = append(scan, g)
+		}
+	}
+	for _, sf := range scan {
+	allInstrs(sf, func(in ssa.Instruction) {
 		bo, ok := in.(*ssa.BinOp)
 		if !ok {
 			return
@@ -719,25 +753,36 @@ func ruleWindowNumeric(c *Check, p *Program, retainRule, boundRule string) {
 			}
 		}
 	})
+	}
 	coll := newCollector()
 	nApp := 0
-	hooks := goHooks{noInline: true, onStore: func(g *goProg, a *AbsState, st *ssa.Store) {
-		if lastField(st.Addr) != "Reader.dict" {
+	dictRooted := func(g *goProg, a *AbsState, v ssa.Value) bool {
+		return isSliceType(v.Type()) && strings.HasSuffix(g.sliceOf(a, v).root, "Reader.dict")
+	}
+	hooks := goHooks{
+		// only helpers that are handed the dictionary are analysed in place
+		inlineOnly: func(g *goProg, a *AbsState, call *ssa.Call, f *ssa.Function) bool {
+			for _, arg := range call.Call.Args {
+				if dictRooted(g, a, arg) {
+					return true
+				}
+			}
+			return false
+		},
+		onAppend: func(g *goProg, a *AbsState, call *ssa.Call, d, blk sliceAbs) {
+		if !strings.HasSuffix(d.root, "Reader.dict") {
 			return
 		}
-		call, isC := st.Val.(*ssa.Call)
-		if !isC || len(call.Call.Args) != 2 {
-			return
-		}
-		if b, isB := call.Call.Value.(*ssa.Builtin); !isB || b.Name() != "append" {
-			return
-		}
+		var st ssa.Instruction = call
 		nApp++
-		d := g.sliceOf(a, call.Call.Args[0])
-		blk := g.sliceOf(a, call.Call.Args[1])
 		N := d.len.Add(blk.len)
-		fk := g.fieldCell(st.Addr)
-		ok0 := "fld:orig:" + fk[len("fld:"):]
+		// the dictionary as first loaded since the last call (snapshot kept by the front end)
+		ok0 := ""
+		for k := range a.vals {
+			if strings.HasPrefix(k, "fld:orig:") && strings.HasSuffix(k, "Reader.dict.len") {
+				ok0 = strings.TrimSuffix(k, ".len")
+			}
+		}
 		l0, has := a.vals[ok0+".len"]
 		o0 := a.vals[ok0+".off"]
 		if retainRule != "" {
@@ -794,4 +839,75 @@ func ruleWindowNumeric(c *Check, p *Program, retainRule, boundRule string) {
 		}
 		c.Fail(rule, "Reader.read#window-update", p.Pos(fn.Pos()), "the dictionary update r.dict = append(r.dict, block...) is reached by the analysis", "no such statement reached")
 	}
+}
+
+// ---------------------------------------------------------------------------
+// R07.3, numeric: in FrameDataBlock.Read (and the helpers it is split into) no
+// slice or index operation on the pooled block buffer b.data can panic: the size
+// word read from the input is compared with the capacity before the buffer is
+// re-sliced to it. Decided by the bounds prover with b.data tracked as a field
+// cell and its operations as obligations.
+
+func ruleBlockSizeNumeric(c *Check, p *Program, rule string) {
+	if !bndArch() {
+		return
+	}
+	fn := findFn(c, p, rule, "internal/lz4stream", "FrameDataBlock.Read")
+	if fn == nil {
+		return
+	}
+	coll := newCollector()
+	hooks := goHooks{inlineOnly: func(g *goProg, a *AbsState, call *ssa.Call, f *ssa.Function) bool {
+		// helpers of the same receiver (the function may have been split) and small pure accessors
+		if pureCallee(f) {
+			return true
+		}
+		return f.Signature.Recv() != nil && fn.Signature.Recv() != nil && types.Identical(f.Signature.Recv().Type(), fn.Signature.Recv().Type())
+	}}
+	lp0 := lpCount
+	res, _, err := analyseGoFunc(p, fn, "FrameDataBlock.Read", []string{"field:FrameDataBlock.data"}, hooks, coll)
+	c.LPQ += lpCount - lp0
+	if err != nil {
+		c.TroubleF("FrameDataBlock.Read: %v", err)
+		return
+	}
+	if res.trouble != "" {
+		c.TroubleF("FrameDataBlock.Read: %s", res.trouble)
+	}
+	n := 0
+	for _, k := range coll.order {
+		o := coll.obls[k]
+		if o.kind != "nopanic" {
+			continue
+		}
+		n++
+		if o.ok {
+			c.OK(rule, "FrameDataBlock.Read#"+o.site, o.pos, "re-slicing the pooled block buffer to the size read from the input cannot panic (the size is compared with the capacity first)", fmt.Sprintf("entailed in all %d abstract state(s)", o.states), true)
+		} else {
+			c.Fail(rule, "FrameDataBlock.Read#"+o.site, o.pos, "re-slicing the pooled block buffer to the size read from the input cannot panic (the size is compared with the capacity first)", "not entailed: "+strings.Join(o.fail, " || "))
+		}
+	}
+	if n == 0 {
+		c.Fail(rule, "FrameDataBlock.Read#size-le-cap-before-reslice", p.Pos(fn.Pos()), "block buffer re-slice resolved", "no slice operation on b.data reached by the analysis")
+	}
+}
+
+// frameStart: where an object starts a frame: its init method (from the entry),
+// or, when init has been merged into its caller, the method of the owner that
+// calls Frame.InitW / Frame.ParseHeaders (from the block of that call).
+func frameStart(p *Program, owner string) (*ssa.Function, *ssa.BasicBlock) {
+	if f := p.Func("", owner+".init"); f != nil && len(f.Blocks) > 0 {
+		return f, f.Blocks[0]
+	}
+	for _, fn := range moduleFuncs(p, pkgRoot) {
+		if recvTypeName(fn) != owner || fn.Parent() != nil {
+			continue
+		}
+		for _, ci := range callsIn(fn) {
+			if calleeIs(ci, pkgStream, "Frame.InitW") || calleeIs(ci, pkgStream, "Frame.ParseHeaders") {
+				return fn, ci.Block()
+			}
+		}
+	}
+	return nil, nil
 }
